@@ -1,4 +1,4 @@
-import DmrVerif.Lemmas.RsPoly
+import DmrVerif.Lemmas.RsKernel
 
 /-!
 # C11 — Reed–Solomon (12,9) over GF(2^8): parity, exact checker, distance 4
@@ -163,6 +163,47 @@ theorem check_iff_generated (w mask : Bytes) (hw : w.length = 12) :
     have : (encode d mask).take 9 = d := by unfold encode; exact List.take_left' hd
     rw [this]
 
+/-! ## the parity map by divisibility; its kernel (messages q(x)·g(x), parity 00 00 00)
+
+Random messages hit the kernel with probability 2⁻²⁴, so the differential run constructs these
+messages algebraically; the statements below fix what must come out for *all* of them. -/
+
+/-- The parity octets `generate` appends are the unique three octets `t` that make `d ++ t` a multiple
+of g: under the zero mask `generate d = d ++ t` exactly if g divides the polynomial of `d ++ t`. -/
+theorem parity_iff_multiple (d t : Bytes) (hd : d.length = 9) (ht : t.length = 3)
+    (bd : isBytes d = true) (bt : isBytes t = true) :
+    generate d [0, 0, 0] = some (d ++ t) ↔ genPoly ∣ wordPoly (d ++ t) := by
+  rw [← parityBytes_eq_iff d t hd ht bd bt, generate_eq d _ hd]
+  unfold encode
+  rw [xorBytes_zero_right3 _ (parityBytes_length d)]
+  simp only [Option.some.injEq]
+  exact ⟨fun h => List.append_cancel_left h, fun h => by rw [h]⟩
+
+/-- Kernel of the parity map: under any mask the generated word is the message followed by the bare
+mask exactly if the message polynomial itself is a multiple of g (the message octets are the
+coefficients of some q(x)·g(x)) — 256⁶ messages, not only the all-zero one. -/
+theorem gen_bare_mask_iff (d mask : Bytes) (hd : d.length = 9) (hm : mask.length = 3)
+    (bd : isBytes d = true) :
+    generate d mask = some (d ++ mask) ↔ genPoly ∣ wordPoly d := by
+  rw [generate_eq d mask hd, ← zero_parity_iff d hd bd, ← encode_bare_mask_iff d mask hm]
+  simp only [Option.some.injEq]
+
+/-- … and the checker accepts a word whose FEC field is the bare mask exactly for these messages
+(in particular it accepts every such word `generate` produced). -/
+theorem check_bare_mask_iff (d mask : Bytes) (hd : d.length = 9) (hm : mask.length = 3)
+    (bd : isBytes d = true) :
+    check (d ++ mask) mask = some true ↔ genPoly ∣ wordPoly d := by
+  rw [check_eq _ _ (by simp [hd, hm]), List.take_left' hd, ← zero_parity_iff d hd bd,
+    ← encode_bare_mask_iff d mask hm]
+  simp only [Option.some.injEq, decide_eq_true_eq]
+
+/-- product form: if the message is q·g for any octet string q, the word is message ++ mask and passes -/
+theorem gen_of_product (q d mask : Bytes) (hd : d.length = 9) (hm : mask.length = 3)
+    (bd : isBytes d = true) (h : wordPoly d = wordPoly q * genPoly) :
+    generate d mask = some (d ++ mask) ∧ check (d ++ mask) mask = some true :=
+  have hdvd : genPoly ∣ wordPoly d := ⟨wordPoly q, by rw [h, mul_comm]⟩
+  ⟨(gen_bare_mask_iff d mask hd hm bd).mpr hdvd, (check_bare_mask_iff d mask hd hm bd).mpr hdvd⟩
+
 /-! ## distance 4: every corruption of one to three octets is detected -/
 
 /-- A 12-octet word that differs from a generated word in one, two or three octet positions is
@@ -231,6 +272,14 @@ example : symDist [4, 0, 0, 0x26, 0x35, 0xaa, 0x03, 0xd4, 0x75, 0xcb, 0x87, 0x96
 /-- the same word under the other mask of the standard is rejected as well -/
 example : check [3, 0, 0, 0x26, 0x35, 0xa9, 0x03, 0xd4, 0x75, 0xcb, 0x87, 0x95] rsMaskTerminatorWithLC
     = some false := by decide +kernel
+
+/-- a non-zero message in the kernel of the parity map: the coefficients of g itself, 1·x³ + 14x² + 56x + 64
+(`gen_bare_mask_iff` is not vacuous): the FEC field is the bare mask and the checker accepts it -/
+example : generate [0, 0, 0, 0, 0, 1, 14, 56, 64] rsMaskVoiceLCHeader
+      = some ([0, 0, 0, 0, 0, 1, 14, 56, 64] ++ rsMaskVoiceLCHeader) ∧
+    check ([0, 0, 0, 0, 0, 1, 14, 56, 64] ++ rsMaskVoiceLCHeader) rsMaskVoiceLCHeader = some true ∧
+    generate [1, 14, 56, 64, 0, 0, 0, 0, 0] [0, 0, 0] = some [1, 14, 56, 64, 0, 0, 0, 0, 0, 0, 0, 0] := by
+  decide +kernel
 
 /-- distance 4 is attained (the bound of `min_distance` is sharp): two messages whose words differ in
 exactly four positions -/
